@@ -38,8 +38,11 @@ pub enum Sep {
     BlankLinesIndent,
     /// a multi-byte comment and a tab, then a line break: non-ASCII text on every line of a multi-line span
     MultiByteLines,
+    /// comments that look like something else: four slashes (not a doc comment), empty and star-heavy block comments,
+    /// an empty line comment
+    OddComments,
 }
-pub const ALL_SEPS: [Sep; 10] = [Sep::Space, Sep::Newline, Sep::Tab, Sep::BlockComment, Sep::LineComment, Sep::CrLf, Sep::MultiByteComment, Sep::Tight, Sep::BlankLinesIndent, Sep::MultiByteLines];
+pub const ALL_SEPS: [Sep; 11] = [Sep::Space, Sep::Newline, Sep::Tab, Sep::BlockComment, Sep::LineComment, Sep::CrLf, Sep::MultiByteComment, Sep::Tight, Sep::BlankLinesIndent, Sep::MultiByteLines, Sep::OddComments];
 
 impl Sep {
     pub fn text(&self) -> &'static str {
@@ -54,6 +57,7 @@ impl Sep {
             Sep::Tight => "",
             Sep::BlankLinesIndent => "\n\n    ",
             Sep::MultiByteLines => "\t/*é✓😀*/ // données ☃\n\t",
+            Sep::OddComments => " ////not a doc comment\n/**/ /***/ /* // */ //\n",
         }
     }
     pub fn has_newline(&self) -> bool {
@@ -256,7 +260,7 @@ impl<'a> P<'a> {
     }
 
     /// doc comment lines and attributes in prelude order; returns (attr nodes, doc node)
-    fn prelude(&mut self, doc: &MDoc, attrs: &[MAttr], attrs_first: bool, owner: &str) -> (Vec<Node>, Option<Node>) {
+    fn prelude(&mut self, doc: &MDoc, attrs: &[MAttr], attrs_first: bool, interleaved: bool, owner: &str) -> (Vec<Node>, Option<Node>) {
         let mut attr_nodes = vec![];
         let mut doc_node = None;
         let owner_scoped = if self.scope.is_empty() { owner.to_string() } else { format!("{}::{}", self.scope.join("::"), owner) };
@@ -278,6 +282,27 @@ impl<'a> P<'a> {
             n.raw_doc = Some(doc.lines.clone());
             Some(n)
         };
+        if interleaved && doc.lines.len() >= 2 && !attrs.is_empty() {
+            // first doc line, the attributes, the remaining doc lines: still ONE comment
+            let first = self.toks.len();
+            self.toks.push(Tok { text: format!("///{}", doc.lines[0]), kind: TokKind::DocLine });
+            for a in attrs {
+                attr_nodes.push(self.attr(a, "[", "]"));
+            }
+            for l in &doc.lines[1..] {
+                self.toks.push(Tok { text: format!("///{l}"), kind: TokKind::DocLine });
+            }
+            if let Ok(parsed) = super::doc::ref_parse(&doc.lines) {
+                let mut n = match &self.ctx {
+                    Some((r, _)) => super::doc::expected_node(&parsed, Some((r.table, owner_scoped.as_str()))),
+                    None => super::doc::expected_node(&parsed, None),
+                };
+                n.pos = Some(Pos { first, last: self.toks.len() - 1, name: None, rule: PosRule::Within });
+                n.raw_doc = Some(doc.lines.clone());
+                doc_node = Some(n);
+            }
+            return (attr_nodes, doc_node);
+        }
         if !attrs_first {
             doc_node = emit_doc(self);
         }
@@ -383,7 +408,7 @@ impl<'a> P<'a> {
     }
 
     fn field(&mut self, f: &MField) -> Node {
-        let (attrs, doc) = self.prelude(&f.c.doc, &f.c.attrs, f.c.attrs_first, &f.c.name.name);
+        let (attrs, doc) = self.prelude(&f.c.doc, &f.c.attrs, f.c.attrs_first, f.c.interleaved, &f.c.name.name);
         let first = self.toks.len();
         let mut n = Node::new("field");
         self.tag(&f.tag, &mut n);
@@ -409,7 +434,7 @@ impl<'a> P<'a> {
     }
 
     fn param(&mut self, p: &MParam, kind: &'static str) -> Node {
-        let (attrs, doc) = self.prelude(&p.doc, &p.attrs, false, &p.name.name);
+        let (attrs, doc) = self.prelude(&p.doc, &p.attrs, false, false, &p.name.name);
         let _ = doc;
         let first = self.toks.len();
         let mut n = Node::new(kind);
@@ -439,7 +464,7 @@ impl<'a> P<'a> {
     }
 
     fn op(&mut self, o: &MOp) -> Node {
-        let (attrs, doc) = self.prelude(&o.c.doc, &o.c.attrs, o.c.attrs_first, &o.c.name.name);
+        let (attrs, doc) = self.prelude(&o.c.doc, &o.c.attrs, o.c.attrs_first, o.c.interleaved, &o.c.name.name);
         let first = self.toks.len();
         let mut n = Node::new("operation");
         if o.idempotent {
@@ -488,7 +513,7 @@ impl<'a> P<'a> {
 
     fn def(&mut self, d: &MDef) -> Node {
         let c = d.common();
-        let (attrs, doc) = self.prelude(&c.doc, &c.attrs, c.attrs_first, &c.name.name);
+        let (attrs, doc) = self.prelude(&c.doc, &c.attrs, c.attrs_first, c.interleaved, &c.name.name);
         self.scope.push(c.name.name.clone());
         let first = self.toks.len();
         let mut n;
@@ -565,7 +590,7 @@ impl<'a> P<'a> {
                 let mut ens = vec![];
                 let mut prev: Option<i128> = None;
                 for (k, en) in e.enumerators.iter().enumerate() {
-                    let (eattrs, edoc) = self.prelude(&en.c.doc, &en.c.attrs, en.c.attrs_first, &en.c.name.name);
+                    let (eattrs, edoc) = self.prelude(&en.c.doc, &en.c.attrs, en.c.attrs_first, en.c.interleaved, &en.c.name.name);
                     self.scope.push(en.c.name.name.clone());
                     let efirst = self.toks.len();
                     let mut x = Node::new("enumerator");
